@@ -269,7 +269,18 @@ func (h *handler) startSending(ctx context.Context) {
 		case msg := <-h.sendChan:
 			if _, err := h.sender(msg); err != nil {
 				h.disconnect(errors.New("sending message failed").Wrap(err))
-				return
+
+				// Other participants broadcast to this connection under the
+				// session lock until HandleDisconnect has removed it: keep
+				// emptying the queue until then, or one of them blocks on it
+				// with the lock that the removal needs.
+				for {
+					select {
+					case <-ctx.Done():
+						return
+					case <-h.sendChan:
+					}
+				}
 			}
 		}
 	}
